@@ -146,11 +146,12 @@ inductive Ev where
   | sentFinished (k : Keys) (transcript : Bytes)
 deriving DecidableEq, Repr
 
-/-- `HandshakeContext` -/
+/-- `HandshakeContext`.  Not represented: `read_epoch` — the code only ever increments it (on
+ChangeCipherSpec, saturating) and logs it; nothing reads it (`dtlsReadEpochStep` in the generated
+constants anchors that single statement). -/
 structure Ctx where
   seqNum        : Nat := 0
   epoch         : Nat := 0
-  readEpoch     : Nat := 0
   msgSeq        : Nat := 0
   recvSeq       : Nat := 0
   postHvr       : Bool := false
@@ -168,7 +169,7 @@ structure Ctx where
   srtp          : Option Nat := none
   expectedFp    : Option Bytes := none
   skeVerified   : Bool := false
-deriving Repr
+deriving Repr, DecidableEq
 
 /-- one endpoint: `DtlsInner` + the run loop's context -/
 structure Ep where
@@ -181,7 +182,7 @@ structure Ep where
   writeSeq   : Nat := 0
   ctx        : Ctx := {}
   evs        : List Ev := []            -- ghost
-deriving Repr
+deriving Repr, DecidableEq
 
 def withCtx (e : Ep) (c : Ctx) : Ep := { e with ctx := c }
 
@@ -494,7 +495,8 @@ def procPayload (C : Crypto) (L : Loc) (auth : Bool) : Nat → Ep → Bytes → 
 
 /-- `handle_decrypted_record` -/
 def onRecord (C : Crypto) (L : Loc) (e : Ep) (ctype : Nat) (auth : Bool) (payload : Bytes) : R :=
-  if ctype = dtlsCtChangeCipherSpec then ok { e with ctx := { e.ctx with readEpoch := min (e.ctx.readEpoch + 1) 65535 } }
+  if ctype = dtlsCtChangeCipherSpec then ok e     -- only `ctx.read_epoch` is bumped, which nothing reads
+  
   else if ctype = dtlsCtApplicationData then
     (if e.conn = .connected then ok e [.deliver payload] else ok e)   -- dropped unless Connected
   else if ctype = dtlsCtHandshake then procPayload C L auth (payload.length + 1) e payload
